@@ -20,6 +20,7 @@ use crate::plugbox::*;
 use crate::runner::{self, Campaign, CaseReport, Ctx, Violation};
 
 static SOLO: RwLock<()> = RwLock::new(());
+static CONFIRMED: std::sync::atomic::AtomicBool = std::sync::atomic::AtomicBool::new(false);
 
 #[derive(Debug, Clone, Copy, PartialEq, Serialize, Deserialize)]
 pub enum Mode {
@@ -39,6 +40,8 @@ pub enum Mode {
     Subscription,
 }
 
+
+
 #[derive(Debug, Clone, Serialize, Deserialize)]
 pub enum Step {
     Revoke(u8),
@@ -50,6 +53,11 @@ pub enum Step {
     Wait(u8),
     RetryTower(u8),
     Restart,
+    /// the user's subscription with tower t runs out: appointments are answered with the subscription error until the
+    /// client has registered again (which the tower accepts)
+    Expire(u8),
+    /// from now on tower t holds every reply (good or bad) back for this many 100 ms: requests are in flight when other things happen
+    Slow(u8, u8),
 }
 
 #[derive(Debug, Clone, Serialize, Deserialize)]
@@ -266,6 +274,8 @@ impl Campaign for C13 {
                     5 => prop_oneof![1u8..10, 10u8..40, 40u8..100].prop_map(Step::Wait),
                     3 => (0..towers).prop_map(Step::RetryTower),
                     1 => Just(Step::Restart),
+                    2 => (0..towers).prop_map(Step::Expire),
+                    3 => (0..towers, 0u8..12).prop_map(|(t, d)| Step::Slow(t, d)),
                 ];
                 // every history opens with an outage and a revocation, so that there is something to retry
                 ((0..towers), proptest::collection::vec(step, 1..8)).prop_map(move |(t0, mut steps)| {
@@ -283,8 +293,10 @@ impl Campaign for C13 {
             let _g = SOLO.read().unwrap();
             run_once(case, w)
         };
-        if !rep.violations.is_empty() && timing {
+        if !rep.violations.is_empty() && timing && !CONFIRMED.load(std::sync::atomic::Ordering::SeqCst) {
             // a bound on real time was missed: only believed if it happens again with nothing else running
+            // (once one miss has been confirmed that way the check has failed anyway; later ones, e.g. the shrinking
+            // candidates, are taken as seen instead of stopping every worker for each of them)
             let _g = SOLO.write().unwrap();
             let (rep2, _) = run_once(case, w);
             if rep2.violations.is_empty() {
@@ -295,6 +307,7 @@ impl Campaign for C13 {
                 rep = rep2;
                 rep.counters = c;
                 rep.counters.push(("timing_miss_reproduced_solo".into(), 1));
+                CONFIRMED.store(true, std::sync::atomic::Ordering::SeqCst);
             }
         }
         rep
@@ -380,6 +393,17 @@ fn run_once(case: &Case, w: usize) -> (CaseReport, bool) {
                 }
                 run.track[t].mode = None;
             }
+            Step::Expire(t) => {
+                run.towers[*t as usize].expire_subscription();
+                let st = run.retrier_state(*t as usize);
+                run.classes.insert(format!("subscription-expires-while-retrier-{st}"));
+            }
+            Step::Slow(t, d) => {
+                run.towers[*t as usize].set_delay(*d as u64 * 100);
+                if *d > 0 {
+                    run.classes.insert("slow-tower".into());
+                }
+            }
             Step::Wait(d) => run.wait(*d as f64 / 10.0),
             Step::RetryTower(t) => {
                 let t = *t as usize;
@@ -445,6 +469,8 @@ fn run_once(case: &Case, w: usize) -> (CaseReport, bool) {
                 let from = run.track[t].manual_or_restart.iter().copied().filter(|e| *e > since).max().unwrap_or(since);
                 run.sample();
                 let has_pending = run.track[t].samples.last().map_or(false, |s| s.2 > 0);
+                // the clock of the obligation starts when something became pending during the outage, not when the outage began
+                let from = run.track[t].samples.iter().filter(|s| s.0 > from).find(|s| s.2 > 0).map_or(from, |s| s.0 - Duration::from_millis(1));
                 if has_pending {
                     let full = run.opts.max_retry_time as f64 + 1.5 + 2.0 * POLL + SLACK;
                     let left = full - from.elapsed().as_secs_f64();
@@ -464,7 +490,8 @@ fn run_once(case: &Case, w: usize) -> (CaseReport, bool) {
                     }
                     if !pending_all_along {
                         // data may only leave the pending list because the tower took or rejected it
-                        let handled = run.towers[t].served().iter().any(|s| s.done > from && s.path == "/add_appointment" && matches!(s.behaviour, Behaviour::Accept | Behaviour::Reject(_)));
+                        // (a reply served just before the outage began may be handled by the client just after)
+                        let handled = run.towers[t].served().iter().any(|s| s.done + Duration::from_secs(3) > from && s.path == "/add_appointment" && matches!(s.behaviour, Behaviour::Accept | Behaviour::Reject(_)));
                         if !handled && run.violations.is_empty() {
                             run.violations.push(v("pending-data-not-retained", format!("tower {} kept failing, neither accepted nor rejected anything, and the client stopped listing the data as pending", &run.towers[t].id_hex()[..8])));
                         }
@@ -480,6 +507,7 @@ fn run_once(case: &Case, w: usize) -> (CaseReport, bool) {
     if run.violations.is_empty() && !run.harness_trouble {
         for t in 0..case.towers as usize {
             run.towers[t].set_default("/add_appointment", Behaviour::Accept);
+            run.towers[t].set_delay(0);
             run.towers[t].set_up(true);
             run.track[t].failing_since = None;
         }
@@ -556,6 +584,7 @@ fn run_once(case: &Case, w: usize) -> (CaseReport, bool) {
 
     if std::env::var("VERIF_DEBUG").is_ok() {
         if let Some(p) = run.p.as_ref() {
+            println!("  stderr: {}", p.stderr_text());
             let t0 = p.started;
             for (at, l) in p.log_lines() {
                 println!("  log +{:.2}: {l}", at.duration_since(t0).as_secs_f64());
@@ -602,7 +631,7 @@ pub fn run(ctx: &Ctx) -> i32 {
     stats.merge(regress);
     let mut ev = Evidence::default();
     ev.level = "exploration".into();
-    ev.rule = "one case = a fresh real watchtower-client process with generated watchtower-max-retry-time (1-3 s) and watchtower-auto-retry-delay (2-4 s), 1-2 scripted towers, and 3-9 steps: revocations, a tower starting to fail in one of 7 ways (refused, reset, non-JSON 200, 502 page, wrong-shape JSON, undecodable signature, subscription error), one-off rejections, recoveries, waits of 0.1-10 s (so that events land while the retrier is stopped, running, idle, waking), retrytower, SIGKILL + restart. Oracles: (1) after every tower recovered, within max-retry-time + auto-retry-delay + 3 manager polls + 3 s every tower is shown reachable with nothing pending and every answered revocation has a receipt (or is invalid because that tower rejected it); (2) per process log, 'Retrying tower X' never appears twice without 'Retry strategy succeeded|gave up for X' in between; (3) failed attempts of one retry loop are >= 100 ms apart and at most 2 + max-retry-time/0.25; no tower sees more than 12 failing requests in a second; a loop does not outlive max-retry-time by more than 1.5 intervals + slack; an idle retrier is not restarted before auto-retry-delay unless retrytower/restart asked; (4) a tower that keeps failing with data pending through a full cycle is shown unreachable at some sample and still lists the data; (5) retrytower is refused when the tower is shown reachable / temporary_unreachable / misbehaving before and after the call, accepted when unreachable before and after. Bounds on real time must fail again in a solo re-run (all other workers paused) to count. Non-trivial = a recovery, a full failing cycle or a manual retry happened; distinct = distinct class sets.".into();
+    ev.rule = "one case = a fresh real watchtower-client process with generated watchtower-max-retry-time (1-3 s) and watchtower-auto-retry-delay (2-4 s), 1-2 scripted towers, and 3-9 steps: revocations, a tower starting to fail in one of 7 ways (refused, reset, non-JSON 200, 502 page, wrong-shape JSON, undecodable signature, subscription error), one-off rejections, subscriptions running out (appointments refused with the subscription error until the client re-registers by itself), slow towers (every reply held back 0-1.1 s), recoveries, waits of 0.1-10 s (so that events land while the retrier is stopped, running, idle, waking), retrytower, SIGKILL + restart. Oracles: (1) after every tower recovered, within max-retry-time + auto-retry-delay + 3 manager polls + 3 s every tower is shown reachable with nothing pending and every answered revocation has a receipt (or is invalid because that tower rejected it); (2) per process log, 'Retrying tower X' never appears twice without 'Retry strategy succeeded|gave up for X' in between; (3) failed attempts of one retry loop are >= 100 ms apart and at most 2 + max-retry-time/0.25; no tower sees more than 12 failing requests in a second; a loop does not outlive max-retry-time by more than 1.5 intervals + slack; an idle retrier is not restarted before auto-retry-delay unless retrytower/restart asked; (4) a tower that keeps failing with data pending through a full cycle is shown unreachable at some sample and still lists the data; (5) retrytower is refused when the tower is shown reachable / temporary_unreachable / misbehaving before and after the call, accepted when unreachable before and after. Bounds on real time must fail again in a solo re-run (all other workers paused) to count. Non-trivial = a recovery, a full failing cycle or a manual retry happened; distinct = distinct class sets.".into();
     ev.assumptions = vec!["real time: bounds = configured delays + 3 polls of the retry manager + 3 s slack; a miss counts only if it reproduces with nothing else running".into(), "the client's info/warn log lines ('Retrying tower', 'Retry strategy succeeded/gave up', 'Retry error happened') are the observation point for retrier lifetimes".into(), "permanently failing subscriptions (non-extending renewals) and misbehaving towers are C14's subject and are not generated here".into()];
     ev.extra.insert("regression_cases_replayed".into(), json!(replayed));
     runner::conclude(ctx, "C13", stats, ev, started)
